@@ -10,18 +10,22 @@
 //!        c06 run <cases-file>                       prints one line per case
 //!
 //! case line (same grammar as ocaml/c06/driver.ml):
-//!   Q <id> <max_paths> <fabrics> <accessor> <nodes> <requests>
+//!   Q <id> <max_paths> <fabrics> <accessor> <nodes> <requests> [<events>]
 //!     fabrics   table('!'table)*: alternative ACL tables over the same fabrics (table 0 is in force at the start of a request)
 //!               table = C05 grammar: - | idx:entries:groups('|'...)   entry = priv,auth,efab,subjects,targets
-//!     accessor  SC,fab,peer,c1/c2/c3,0,0 | SP,fab,n,0/0/0,0,0
+//!     accessor  SC,fab,peer,c1/c2/c3,0,0 | SP,fab,n,0/0/0,0,0 | SG,fab,n,0/0/0,gid,0 (group session: writes and
+//!               invokes only, sent unreliably, never answered; the response token is GL[handler calls])
 //!     nodes     node('#'node)*     node = - | ep('|'ep)*     ep = id~dts~clusters
-//!               clusters = - | cluster('+'cluster)*          cluster = id=attrs=cmds
+//!               clusters = - | cluster('+'cluster)*          cluster = id=attrs=cmds[=events]
 //!               attrs/cmds = - | leaf('/'leaf)*              leaf = id.access.on
 //!     requests  request(';'request)*   request = op,flag,ff,win,elapsed,swaps,items
-//!               op R|W|I|C (C = continuation chunk of the preceding W/C on the same exchange: that one is sent with
+//!               op E (read with event paths) | S (subscribe with event paths; the priming report is the answer) |
+//!               R|W|I|C (C = continuation chunk of the preceding W/C on the same exchange: that one is sent with
 //!               MoreChunkedMessages; its elapsed = ms waited before it is sent; win/ff unused); win n|<ms>; swaps - | k>j[/a](':'k>j[/a])*  (after k handler calls: node j, ACL table a);
 //!               items item('&'item)*
 //!               item = ep.cl.leaf[^ref]   (x = wildcard)
+//!     events    the event queue of the device, pushed before the first request: ep.cl.ev.fab('&'...), fab = n or the
+//!               FabricIndex field (tag 254) of the payload
 //! output:  Q <id> <resp>( <resp>)*
 //!     resp = X<code> | I[entry,..]L[call,..] | E<text> | N (continuation chunk not sent: an earlier chunk was refused)
 //!     entry = D<e>.<c>.<l>[^ref] | S<path>[^ref]:<code>
@@ -194,8 +198,9 @@ fn cmd_selected(c: &Command, _rev: u16, _fm: u32) -> bool {
     c.resp_id != Some(DISABLED_CMD_MARK)
 }
 
-fn all_events(_e: &rs_matter::dm::Event, _rev: u16, _fm: u32) -> bool {
-    true
+/// events declared with the (otherwise unused) access bit 0x8000 are not selected
+fn event_selected(e: &rs_matter::dm::Event, _rev: u16, _fm: u32) -> bool {
+    e.access.bits() & 0x8000 == 0
 }
 
 fn leak<T>(v: Vec<T>) -> &'static [T] {
@@ -230,7 +235,15 @@ fn build_node(s: &str) -> &'static Node<'static> {
                     Access::from_bits_retain(p[1].parse::<u16>().unwrap()),
                 ));
             }
-            cls.push(Cluster::new(cid, 1, 0, leak(attrs), leak(cmds), &[], attr_selected, cmd_selected, all_events));
+            let mut evs: Vec<rs_matter::dm::Event> = Vec::new();
+            if g.len() > 3 {
+                for l in plist(g[3], '/') {
+                    let p: Vec<&str> = l.split('.').collect();
+                    let bits = p[1].parse::<u16>().unwrap() | if p[2] == "1" { 0 } else { 0x8000 };
+                    evs.push(rs_matter::dm::Event::new(p[0].parse().unwrap(), Access::from_bits_retain(bits)));
+                }
+            }
+            cls.push(Cluster::new(cid, 1, 0, leak(attrs), leak(cmds), leak(evs), attr_selected, cmd_selected, event_selected));
         }
         eps.push(Endpoint::new(id, leak(dts), leak(cls)));
     }
@@ -418,6 +431,31 @@ fn tagstr(t: &Option<u16>) -> String {
 fn write_request(req: &Req, wb: &mut rs_matter::utils::storage::WriteBuf<'_>) -> Result<OpCode, Error> {
     wb.start_struct(&TLVTag::Anonymous)?;
     let opcode = match req.op {
+        'E' | 'S' => {
+            if req.op == 'S' {
+                wb.bool(&TLVTag::Context(0), false)?; // keep subscriptions
+                wb.u16(&TLVTag::Context(1), 0)?; // min interval floor
+                wb.u16(&TLVTag::Context(2), 3600)?; // max interval ceiling
+            }
+            wb.start_array(&TLVTag::Context(if req.op == 'S' { 4 } else { 1 }))?;
+            for it in &req.items {
+                let p = rs_matter::im::EventPath {
+                    node: None,
+                    endpoint: it.ep,
+                    cluster: it.cl,
+                    event: it.leaf,
+                    is_urgent: None,
+                };
+                p.to_tlv(&TLVTag::Anonymous, &mut *wb)?;
+            }
+            wb.end_container()?;
+            wb.bool(&TLVTag::Context(if req.op == 'S' { 7 } else { 3 }), req.ff)?;
+            if req.op == 'S' {
+                OpCode::SubscribeRequest
+            } else {
+                OpCode::ReadRequest
+            }
+        }
         'R' => {
             wb.start_array(&TLVTag::Context(0))?;
             for it in &req.items {
@@ -553,8 +591,53 @@ async fn exchange_one(ex: &mut Exchange<'_>, req: &Req) -> Result<String, Error>
                     }
                 }
             }
+            if let Some(reps) = &r.event_reports {
+                for rep in reps.iter() {
+                    match rep? {
+                        rs_matter::im::EventResp::Data(d) => {
+                            let fab = d
+                                .data
+                                .structure()
+                                .ok()
+                                .and_then(|st| st.find_ctx(254).ok())
+                                .and_then(|e| e.u8().ok());
+                            entries.push(format!(
+                                "D{}.{}.{}{}",
+                                o(&d.path.endpoint),
+                                o(&d.path.cluster),
+                                o(&d.path.event),
+                                fab.map(|f| format!("^{f}")).unwrap_or_default()
+                            ));
+                        }
+                        rs_matter::im::EventResp::Status(st) => entries.push(format!(
+                            "S{}.{}.{}:{}",
+                            o(&st.path.endpoint),
+                            o(&st.path.cluster),
+                            o(&st.path.event),
+                            st.status.status as u16
+                        )),
+                    }
+                }
+            }
             let more = r.more_chunks.unwrap_or(false);
             drop(rx);
+            if req.op == 'S' && !more {
+                // the priming report is complete: confirm it and take the SubscribeResponse
+                ex.send_with(|_, wb| {
+                    StatusResp::write(wb, IMStatusCode::Success)?;
+                    Ok(Some(OpCode::StatusResponse.meta()))
+                })
+                .await?;
+                let rx = ex.recv().await?;
+                let oc = rx.meta().proto_opcode;
+                drop(rx);
+                result = if oc == OpCode::SubscribeResponse as u8 {
+                    format!("I[{}]", entries.join(","))
+                } else {
+                    format!("Eopcode{oc}")
+                };
+                break;
+            }
             if more {
                 ex.send_with(|_, wb| {
                     StatusResp::write(wb, IMStatusCode::Success)?;
@@ -620,6 +703,24 @@ async fn exchange_one(ex: &mut Exchange<'_>, req: &Req) -> Result<String, Error>
     Ok(result)
 }
 
+/// A write / invoke over the group session: sent unreliably, never answered; the handler log is the result.
+async fn do_group_request(ctl: &Matter<'_>, dev_node: u64, hnd: &Hnd<'_>, req: &Req) -> Result<String, Error> {
+    let crypto = test_only_crypto();
+    hnd.begin(req.swaps.clone());
+    let mut ex = Exchange::initiate(ctl, &crypto, NonZeroU8::new(1).unwrap(), dev_node).await?;
+    ex.send_with(|_, wb| {
+        let opcode = write_request(req, wb)?;
+        Ok(Some(opcode.meta().reliable(false)))
+    })
+    .await?;
+    drop(ex);
+    // the device processes the message on its own; nothing comes back
+    for _ in 0..6 {
+        Timer::after(Duration::from_millis(2)).await;
+    }
+    Ok(format!("GL[{}]", hnd.log.borrow().join(",")))
+}
+
 /// One request (for a write: all its chunks) on a fresh exchange. Pushes one token per element of
 /// `group` onto `tokens`: the canonical response with the handler log of that message, or `N`.
 async fn do_group(ctl: &Matter<'_>, dev_node: u64, hnd: &Hnd<'_>, group: &[Req], tokens: &RefCell<Vec<String>>) -> Result<(), Error> {
@@ -672,7 +773,7 @@ fn leaked_dev_det(max_paths: u16) -> &'static BasicInfoConfig<'static> {
 
 fn run_line(line: &str, out: &mut String) {
     let f: Vec<&str> = line.split(' ').collect();
-    if f.len() != 7 || f[0] != "Q" {
+    if (f.len() != 7 && f.len() != 8) || f[0] != "Q" {
         return;
     }
     let max_paths: u16 = f[2].parse().unwrap();
@@ -688,8 +789,13 @@ fn run_line(line: &str, out: &mut String) {
             }
         }
         "SP" => SessionMode::Pase { fab_idx: fab },
+        "SG" => SessionMode::Group {
+            fab_idx: NonZeroU8::new(fab).unwrap(),
+            group_id: acc[4].parse().unwrap(),
+        },
         k => panic!("bad accessor kind {k}"),
     };
+    let group_line = acc[0] == "SG";
     let nodes: Vec<&'static Node<'static>> = f[5].split('#').map(build_node).collect();
     let mut reqs: Vec<Req> = f[6].split(';').map(parse_req).collect();
     for i in 0..reqs.len() {
@@ -705,11 +811,12 @@ fn run_line(line: &str, out: &mut String) {
     let ctl = e2e::new_matter(&TEST_DEV_DET, true);
 
     // device side: the session under test; controller side: a CASE session with the same ids
-    {
+    let preset_dev_session = || {
         let mut s = ReservedSession::reserve_now(&dev, &crypto).unwrap();
-        s.update(DEV_NODE, peer, 2, 1, e2e::node_addr(CTL), mode, None, None, None, None).unwrap();
+        s.update(DEV_NODE, peer, 2, 1, e2e::node_addr(CTL), mode.clone(), None, None, None, None).unwrap();
         s.complete();
-    }
+    };
+    preset_dev_session();
     e2e::preset_case_session(&ctl, &crypto, peer, DEV_NODE, 2, 1, e2e::node_addr(DEV), 1, Default::default()).unwrap();
 
     let net = Net::reliable();
@@ -727,9 +834,38 @@ fn run_line(line: &str, out: &mut String) {
         log: RefCell::new(Vec::new()),
     };
     let buffers: MatterBuffers = MatterBuffers::new();
-    let state: InteractionModelState<DummyNetworks, 1, 64> = InteractionModelState::new(DummyNetworks);
+    let state: InteractionModelState<DummyNetworks, 3, 4096> = InteractionModelState::new(DummyNetworks);
     state.suppress_start_up_event();
     let kv = dev.kv(DummyKvBlobStore);
+    // the event queue
+    if f.len() == 8 {
+        for ev in plist(f[7], '&') {
+            let p: Vec<&str> = ev.split('.').collect();
+            let fabtag: Option<u8> = opt_num(p[3]);
+            state
+                .events()
+                .push(
+                    p[0].parse().unwrap(),
+                    p[1].parse().unwrap(),
+                    p[2].parse().unwrap(),
+                    rs_matter::im::EventPriority::Info,
+                    &kv,
+                    |mut tw| -> Result<(), Error> {
+                        let mut buf = [0u8; 64];
+                        let mut wb = rs_matter::utils::storage::WriteBuf::new(&mut buf);
+                        wb.start_struct(&TLVTag::Context(rs_matter::im::EventDataTag::Data as u8))?;
+                        if let Some(fi) = fabtag {
+                            wb.u8(&TLVTag::Context(254), fi)?;
+                        }
+                        wb.end_container()?;
+                        let end = wb.get_tail();
+                        tw.write_raw_data(buf[..end].iter().copied())?;
+                        Ok(())
+                    },
+                )
+                .unwrap();
+        }
+    }
     let dm = InteractionModel::new(&dev, &crypto, &buffers, &hnd, &kv, &state);
     let responder = Responder::new_default(&dm);
 
@@ -751,6 +887,21 @@ fn run_line(line: &str, out: &mut String) {
                 }
                 let group = &reqs[i..j];
                 let before = results.borrow().len();
+                if group_line {
+                    // the receive path drops a group session with its last exchange: install it again if it is gone
+                    let present = dev.with_state(|st| st.verif_sessions().iter().any(|s| s.get_local_sess_id() == 1));
+                    if !present {
+                        preset_dev_session();
+                    }
+                    let r = e2e::with_timeout(4000, do_group_request(&ctl, DEV_NODE, &hnd, &group[0])).await;
+                    results.borrow_mut().push(match r {
+                        Some(Ok(s)) => s,
+                        Some(Err(e)) => format!("Eerr:{:?}", e.code()),
+                        None => "Ehang".to_string(),
+                    });
+                    i += 1;
+                    continue;
+                }
                 let wait: u64 = group.iter().map(|r| r.elapsed).sum();
                 let r = e2e::with_timeout(8000 + wait, do_group(&ctl, DEV_NODE, &hnd, group, &results)).await;
                 let hang = match r {
@@ -831,6 +982,9 @@ const CL_POOL: [u32; 5] = [6, 8, 0x1F, 0x1234, 0xFFF1_0001];
 const ATTR_POOL: [u32; 7] = [0, 1, 2, 3, 0x4001, 0xFFFC, 0xFFFD];
 const CMD_POOL: [u32; 5] = [0, 1, 2, 0x40, 0x41];
 const DT_POOL: [u16; 3] = [0x0100, 22, 0x0016];
+const EV_POOL: [u32; 4] = [0, 1, 2, 3];
+/// event declarations: RV, RA, R operate, RV fabric-sensitive, RM fabric-sensitive, nothing, levels without READ
+const EV_DECLS: [u16; 8] = [17, 17, 24, 30, 17 + 128, 20 + 128, 0, 1];
 
 fn sample<T: Copy>(rng: &mut Rng, pool: &[T], n: usize) -> Vec<T> {
     let mut idx: Vec<usize> = (0..pool.len()).collect();
@@ -846,7 +1000,7 @@ fn sample<T: Copy>(rng: &mut Rng, pool: &[T], n: usize) -> Vec<T> {
 #[derive(Clone)]
 struct GLeaf(u32, u16, bool);
 #[derive(Clone)]
-struct GCluster(u32, Vec<GLeaf>, Vec<GLeaf>);
+struct GCluster(u32, Vec<GLeaf>, Vec<GLeaf>, Vec<GLeaf>);
 #[derive(Clone)]
 struct GEp(u16, Vec<u16>, Vec<GCluster>);
 
@@ -868,7 +1022,7 @@ fn show_node(n: &[GEp]) -> String {
             let cls = if e.2.is_empty() {
                 "-".to_string()
             } else {
-                e.2.iter().map(|c| format!("{}={}={}", c.0, show_leaves(&c.1), show_leaves(&c.2))).collect::<Vec<_>>().join("+")
+                e.2.iter().map(|c| format!("{}={}={}={}", c.0, show_leaves(&c.1), show_leaves(&c.2), show_leaves(&c.3))).collect::<Vec<_>>().join("+")
             };
             format!("{}~{}~{}", e.0, dts, cls)
         })
@@ -887,7 +1041,12 @@ fn rand_cluster(rng: &mut Rng, id: u32, max_leaves: usize) -> GCluster {
         .into_iter()
         .map(|c| GLeaf(c, *rng.pick(&CMD_DECLS), !rng.chance(1, 10)))
         .collect();
-    GCluster(id, attrs, cmds)
+    let ne = rng.below(4) as usize;
+    let evs = sample(rng, &EV_POOL, ne)
+        .into_iter()
+        .map(|e| GLeaf(e, *rng.pick(&EV_DECLS), !rng.chance(1, 10)))
+        .collect();
+    GCluster(id, attrs, cmds, evs)
 }
 
 fn rand_ep(rng: &mut Rng, id: u16, max_leaves: usize) -> GEp {
@@ -1126,6 +1285,64 @@ fn rand_request(rng: &mut Rng, nodes: &[Vec<GEp>], hist: &mut BTreeMap<String, u
     out
 }
 
+fn rand_event_path(rng: &mut Rng, node: &[GEp]) -> String {
+    let (mut e, mut c, mut l) = (rng.pick(&EP_POOL).to_string(), rng.pick(&CL_POOL).to_string(), rng.pick(&EV_POOL).to_string());
+    if !node.is_empty() && rng.chance(4, 5) {
+        let ep = &node[rng.below(node.len() as u64) as usize];
+        e = ep.0.to_string();
+        if !ep.2.is_empty() && rng.chance(5, 6) {
+            let cl = &ep.2[rng.below(ep.2.len() as u64) as usize];
+            c = cl.0.to_string();
+            if !cl.3.is_empty() && rng.chance(5, 6) {
+                l = cl.3[rng.below(cl.3.len() as u64) as usize].0.to_string();
+            }
+        }
+    }
+    for x in [&mut e, &mut c, &mut l] {
+        if rng.chance(35, 100) {
+            *x = "x".into();
+        }
+    }
+    format!("{e}.{c}.{l}")
+}
+
+fn rand_queue(rng: &mut Rng, node: &[GEp]) -> String {
+    let n = rng.range(0, 10);
+    let evs: Vec<String> = (0..n)
+        .map(|_| {
+            let p = loop {
+                let p = rand_event_path(rng, node);
+                if !p.contains('x') {
+                    break p;
+                }
+            };
+            let fab = *rng.pick(&["n", "n", "1", "2", "2", "3", "0"]);
+            format!("{p}.{fab}")
+        })
+        .collect();
+    if evs.is_empty() {
+        "-".to_string()
+    } else {
+        evs.join("&")
+    }
+}
+
+fn rand_event_request(rng: &mut Rng, node: &[GEp], hist: &mut BTreeMap<String, u64>, can_subscribe: bool) -> String {
+    let op = if can_subscribe && rng.chance(1, 3) { 'S' } else { 'E' };
+    let n = rng.range(1, 4);
+    let mut items: Vec<String> = Vec::new();
+    for i in 0..n {
+        if i > 0 && rng.chance(1, 5) {
+            let prev = items[rng.below(items.len() as u64) as usize].clone();
+            items.push(prev);
+        } else {
+            items.push(rand_event_path(rng, node));
+        }
+    }
+    *hist.entry(format!("event_requests_{op}")).or_insert(0) += 1;
+    format!("{op},0,{},n,0,-,{}", rng.below(2), items.join("&"))
+}
+
 fn generate(tier: &str, seed: u64) -> (Vec<String>, BTreeMap<String, u64>) {
     let thorough = tier == "thorough";
     let mut rng = Rng::new(seed);
@@ -1272,6 +1489,104 @@ fn generate(tier: &str, seed: u64) -> (Vec<String>, BTreeMap<String, u64>) {
         *hist.entry("chunked_write_scripted_lines".into()).or_insert(0) += 1;
     }
 
+    // ---- events: declarations of different access and fabric sensitivity, a queue pushed by two fabrics
+    //      (FabricIndex field 1 / 2 / none), sources that no longer exist, every kind of path
+    let ev_node = "0~22~6=0.17.1=0.46.1=0.17.1/1.24.1/2.145.1/3.17.0/4.30.1/5.0.1+8=-=-=0.17.1/2.148.1|1~256~6=0.17.1=0.46.1=0.17.1/2.145.1|5~e~9=-=-=-";
+    let ev_queue = "0.6.0.n&0.6.1.n&0.6.2.1&0.6.2.2&0.6.3.n&0.6.4.n&0.6.5.n&0.8.0.n&0.8.2.2&0.8.2.1&1.6.0.n&1.6.2.2&1.6.2.0&7.6.0.n&0.7.0.n&0.6.9.n&5.9.0.n&0.6.2.n&0.6.0.1";
+    let ev_reqs = [
+        "E,0,0,n,0,-,x.x.x",
+        "E,0,1,n,0,-,x.x.x",
+        "E,0,0,n,0,-,0.x.x&x.6.x&x.x.2&1.6.x&x.8.2&0.6.x",
+        "E,0,1,n,0,-,0.6.0&0.6.1&0.6.2&0.6.3&0.6.4&0.6.5&0.6.9&0.7.0&7.6.0&5.9.0&1.6.2",
+        "E,0,0,n,0,-,0.6.1&0.6.1&x.6.1",
+        "E,0,0,n,0,-,7.x.x&0.7.x&x.7.x&x.x.9",
+        "S,0,1,n,0,-,x.x.x",
+        "S,0,0,n,0,-,0.6.0&1.x.x",
+        "S,0,1,n,0,-,x.x.x&0.6.9",
+        "S,0,1,n,0,-,0.6.1",
+        "S,0,0,n,0,-,0.7.0",
+        "S,0,0,n,0,-,0.6.2&0.8.2",
+        "E,0,1,n,0,-,0.8.2&0.6.2",
+    ];
+    for fabs in [&admin, &viewer, &operator_ep1, &manager_cl6, &by_devtype] {
+        for acc in &accs {
+            // a session without fabric (PASE before AddNOC) cannot subscribe: the engine gives up on the exchange
+            // without an answer (im.rs subscribe: fabric index 0 => Err(Invalid)); not sent
+            let rs: Vec<&str> = ev_reqs.iter().copied().filter(|r| !(acc.starts_with("SP,0") && r.starts_with('S'))).collect();
+            cases.push(format!("Q {} 4 {} {} {} {} {}", nid(), fabs, acc, ev_node, rs.join(";"), ev_queue));
+            *hist.entry("event_scripted_lines".into()).or_insert(0) += 1;
+        }
+    }
+
+    // ---- group requesters (no answer comes back; the handler log is the observation): group 7 has
+    //      member endpoints 1 and 2, group 9 none, group 11 is not in the table
+    let g_node = "0~22~6=0.17.1/1.46.1/2.302.1=0.46.1/1.302.1/2.110.1=-|1~256~6=0.17.1/1.46.1=0.46.1/1.40.1=-+8=1.46.1=0.46.1=-|2~e~6=1.46.1=0.46.1=-|5~e~6=1.46.1=0.46.1=-";
+    let g_tables = [
+        "1:3,G,n,7,n:7,n,1/2+9,n,e".to_string(),
+        "1:3,G,n,7,1.x.x:7,n,1/2".to_string(),
+        "1:3,G,n,7,x.8.x/x.x.256:7,n,1/2/5".to_string(),
+        "1:3,G,n,9,n+15,C,n,n,n:7,n,1/2".to_string(),
+        "1:-:7,n,1/2".to_string(),
+        "1:1,G,n,7,n:7,n,0/1".to_string(),
+        "1:3,G,n,n,n:7,1,1/2".to_string(),
+    ];
+    let g_reqs = [
+        "I,0,0,n,0,-,x.6.0", "I,0,0,n,0,-,1.6.0", "I,0,0,n,0,-,0.6.0", "I,0,0,n,0,-,2.6.0^1&x.8.0^2", "I,0,0,n,0,-,x.6.1",
+        "I,0,0,n,0,-,x.x.0", "I,0,0,n,0,-,5.6.0", "W,0,0,n,0,-,x.6.1", "W,0,0,n,0,-,2.6.1&0.6.1&x.8.1", "W,0,0,n,0,-,x.6.0",
+        "W,0,0,n,0,-,x.6.2", "I,0,0,n,0,-,x.6.2",
+    ];
+    for t in &g_tables {
+        for (f, gid) in [(1, 7), (1, 9), (1, 11), (2, 7)] {
+            cases.push(format!("Q {} 4 {}|2:-:- SG,{f},n,0/0/0,{gid},0 {} {}", nid(), t, g_node, g_reqs.join(";")));
+            *hist.entry("group_scripted_lines".into()).or_insert(0) += 1;
+        }
+    }
+    // random group lines
+    for _ in 0..(if thorough { 1500 } else { 150 }) {
+        let node = rand_node(&mut rng, 4, 4);
+        let gid = *rng.pick(&[7u16, 7, 9]);
+        let mut members: Vec<u16> = sample(&mut rng, &EP_POOL, 3);
+        members.truncate(rng.range(0, 3) as usize);
+        let mem = if members.is_empty() { "e".to_string() } else { members.iter().map(|m| m.to_string()).collect::<Vec<_>>().join("/") };
+        let ne = rng.range(0, 2);
+        let es: Vec<String> = (0..ne)
+            .map(|_| {
+                let pr = *rng.pick(&[1u8, 3, 7, 15]);
+                let subj = *rng.pick(&["n", "7", "9", "7/9"]);
+                let targ = match rng.below(4) {
+                    0 => "n".to_string(),
+                    1 => format!("{}.x.x", rng.pick(&EP_POOL)),
+                    2 => format!("x.{}.x", rng.pick(&CL_POOL)),
+                    _ => format!("x.x.{}", rng.pick(&DT_POOL)),
+                };
+                format!("{pr},{},n,{subj},{targ}", if rng.chance(5, 6) { "G" } else { "C" })
+            })
+            .collect();
+        let table = format!("1:{}:7,n,{mem}|2:-:-", if es.is_empty() { "-".to_string() } else { es.join("+") });
+        let nodes = vec![node];
+        let reqs: Vec<String> = (0..rng.range(3, 6))
+            .map(|_| {
+                let op = *rng.pick(&['W', 'I']);
+                let n = rng.range(1, 3) as usize;
+                let mut items: Vec<String> = Vec::new();
+                for i in 0..n {
+                    let (e, mut c, mut l) = pick_path(&mut rng, &nodes[0], op == 'I', 45);
+                    if c == "x" && !rng.chance(1, 8) {
+                        c = rng.pick(&CL_POOL).to_string();
+                    }
+                    if l == "x" && !rng.chance(1, 8) {
+                        l = "0".into();
+                    }
+                    let r = if op == 'I' && n > 1 { format!("^{}", i + 1) } else { String::new() };
+                    items.push(format!("{e}.{c}.{l}{r}"));
+                }
+                format!("{op},0,0,n,0,-,{}", items.join("&"))
+            })
+            .collect();
+        cases.push(format!("Q {} 4 {} SG,1,n,0/0/0,{gid},0 {} {}", nid(), table, show_node(&nodes[0]), reqs.join(";")));
+        *hist.entry("group_random_lines".into()).or_insert(0) += 1;
+    }
+
     // ---- random stream
     let n_rand = if thorough { 30000 } else { 2500 };
     for i in 0..n_rand {
@@ -1289,7 +1604,7 @@ fn generate(tier: &str, seed: u64) -> (Vec<String>, BTreeMap<String, u64>) {
             for e in sample(&mut rng, &EP_POOL, 5) {
                 let cls = sample(&mut rng, &CL_POOL, 4).into_iter().map(|c| {
                     let attrs = ATTR_POOL.iter().map(|a| GLeaf(*a, *rng.pick(&[17u16, 17, 57, 24, 61]), true)).collect();
-                    GCluster(c, attrs, vec![])
+                    GCluster(c, attrs, vec![], vec![])
                 }).collect();
                 n.push(GEp(e, vec![], cls));
             }
@@ -1316,14 +1631,26 @@ fn generate(tier: &str, seed: u64) -> (Vec<String>, BTreeMap<String, u64>) {
         let nreq = if big { 2 } else { rng.range(3, 6) };
         let reqs: Vec<String> = (0..nreq).map(|_| rand_request(&mut rng, &nodes, &mut hist, big, two_acls)).collect();
         let mp = *rng.pick(&[2u16, 4, 4, 6]);
+        let mut reqs = reqs;
+        let mut tail = String::new();
+        if !big && nodes.len() == 1 && rng.chance(1, 5) {
+            for _ in 0..rng.range(1, 3) {
+                let r = rand_event_request(&mut rng, &nodes[0], &mut hist, !acc.starts_with("SP,0"));
+                let at = rng.below(reqs.len() as u64 + 1) as usize;
+                reqs.insert(at, r);
+            }
+            tail = format!(" {}", rand_queue(&mut rng, &nodes[0]));
+            *hist.entry("lines_with_event_queue".into()).or_insert(0) += 1;
+        }
         cases.push(format!(
-            "Q {} {} {} {} {} {}",
+            "Q {} {} {} {} {} {}{}",
             nid(),
             mp,
             fabs,
             acc,
             nodes.iter().map(|n| show_node(n)).collect::<Vec<_>>().join("#"),
-            reqs.join(";")
+            reqs.join(";"),
+            tail
         ));
     }
     (cases, hist)
